@@ -11,9 +11,9 @@ import (
 
 func init() {
 	register(&PropSpec{
-		ID: "C18",
+		ID:          "C18",
 		Explanation: "Structural necessary conditions for the reconnectable transport. T1: the redial uses the original dial configuration with Reconnect set to the constant true, and the transport id is fixed (generated if empty) before the first dial. T2: Write on the underlying transport is called from exactly one function, started by exactly one go statement, fed by one request channel (serialisation by ownership). T3: after a successful redial the write loop retries the same request without receiving a new one. T4: in the write loop and the read loop every return after a failed redial passes the transport's cancel (or Close), so that pending and later Reads/Writes fail instead of blocking. T5: a control ping read from the peer is answered through the ping channel and not forwarded to readers. T6: the redial loop is bounded by the configured attempts, re-checks closed() each attempt, and installs a new transport only after a successful handshake read on it. T7: every Write registers its result channel under the mutex before queuing the request and removes it afterwards; result channels are buffered.",
-		NotDecided: []string{"exactly-once acceptance and order across incarnations as histories"},
+		NotDecided:  []string{"exactly-once acceptance and order across incarnations as histories"},
 		Rules: func(r *Run) {
 			le := newLockEngine(r.P)
 			ruleC18T1(r)
@@ -79,6 +79,29 @@ func ruleC18T1(r *Run) {
 		okGen = !dominatesInstr(first[0], gen) && reachesWithout(gen, func(ins ssa.Instruction) bool { return ins == first[0] }, nil) != nil
 	}
 	r.Check(name+" transport id fixed before dialing", okGen, p.pos(dial.Pos()), name, "an empty TransportID must be replaced by a generated one before the first dial so that redials carry the same id")
+	// the generated id lands in the very object the redial closure copies its config from
+	if gen != nil {
+		genRoot := pathOf(gen.Addr)
+		same, found := true, false
+		for _, cl := range dial.AnonFuncs {
+			if len(findCalls(cl, false, "/transport.Dialer.Dial")) == 0 {
+				continue
+			}
+			allInstrs(cl, func(ins ssa.Instruction) {
+				fa, isFA := ins.(*ssa.FieldAddr)
+				if !isFA || fieldKeyOfAddr(fa) != rcPkg+".DialConfig.DialConfig" {
+					return
+				}
+				found = true
+				if pr := pathOf(fa); pr == nil || genRoot == nil || pr.Root != genRoot.Root {
+					same = false
+				}
+			})
+		}
+		if found {
+			r.Check(name+" redial copies the config that holds the generated id", same, posOf(p, gen), name, "the generated TransportID is stored into "+genRoot.String()+"; the reconnector closure must read its DialConfig from the same variable, or a redial announces Reconnect=true with an empty id")
+		}
+	}
 	// the first dial uses the config without Reconnect forced
 	r.Check(name+" dials at least once", len(first) >= 1, p.pos(dial.Pos()), name, fmt.Sprintf("%d dial call(s) in Dial", len(first)))
 }
